@@ -12,7 +12,7 @@ place=$(head -1 "$demo" | sed -n 's#^// place in: *##p' | tr -d ' \r')
 wt=$(mktemp -d /tmp/keepwt.XXXXXX); rmdir "$wt"
 git -C /repo worktree add --detach "$wt" HEAD >/dev/null 2>&1 || exit 3
 trap 'git -C /repo worktree remove --force "$wt" >/dev/null 2>&1; rm -rf "$wt"' EXIT
-cp "$demo" "$wt/$place/zz_seed_demo_test.go"
+mkdir -p "$wt/$place"; cp "$demo" "$wt/$place/zz_seed_demo_test.go"
 clean=$(cd "$wt" && go test -vet=off -count=1 -run 'TestSeedDemo|TestAdvDemo' ./$place 2>&1); crc=$?
 git -C "$wt" apply "$patch" || { echo "patch does not apply"; exit 3; }
 (cd "$wt" && go build ./... && go vet ./... >/dev/null 2>&1) || { echo "build/vet fails"; exit 3; }
